@@ -1202,11 +1202,14 @@ def regenerate(repo=None):
 
 def run(ctx):
     import time
-    ctx.rule = ("a case is (database of 1-12 fits with nested instances, then either one predicate tree over path comparisons / "
-                "type tests / fit attributes / info with and, or, not [+ ordering keys and [a:b] slices], or an arbitrary sequence "
-                "of query / order_by / slice-with-step operations); a query / order case is non-trivial when the predicate has a "
-                "junction or negation and, evaluated directly on the stored objects, selects some but not all fits; an operation "
-                "sequence when it has >= 3 operations and a non-empty result; distinct = distinct abstract input")
+    ctx.rule = ("a case is (database of 1-12 fits with nested instances, NULL columns, parent links, then either one predicate tree "
+                "over path comparisons / type tests / fit attributes (incl. parent_id, id) / info with and, or, not [+ ordering keys "
+                "and [a:b] slices, incl. chains of 2-3 slices], or an arbitrary sequence of query / order_by / slice-with-step "
+                "operations, or (grid-search databases: grid searches with children, ties and NULL likelihoods, nested grid "
+                "searches) an arbitrary sequence of query / order_by / slice / grid_searches / children / best_fits); a query / "
+                "order case is non-trivial when the predicate has a junction or negation and, evaluated directly on the stored "
+                "objects, selects some but not all fits; an operation sequence when it has >= 3 (grid: >= 2) operations and a "
+                "non-empty result; distinct = distinct abstract input")
     ctx.trusted = [
         "Coq 8.16.1 kernel incl. vm_compute",
         "SQLite's evaluation of the emitted SQL and SQLAlchemy's persistence of Fit/Object rows: covered by correspondence only",
@@ -1220,7 +1223,10 @@ def run(ctx):
         "child names are unique below every stored object (attributes, list indices, string dict keys); info keys unique per fit",
         "within one database every numeric value has one Python spelling (1 / 1.0 / True are not mixed as constants)",
         "type tests mean class_path equality (a subclass instance does not satisfy a test for its base class)",
-        "list positions are compared only when the requested keys make the order total; NULL order keys are not generated",
+        "list positions are compared only when the id is among the order keys (ORDER BY leaves ties unspecified); otherwise the "
+        "returned list must be the right set and sorted by the keys; NULL keys sort as the smallest value (SQLite; other "
+        "engines, e.g. PostgreSQL, put NULLs last under ASC: outside the claim)",
+        "max_log_likelihood is never NaN; GridSearchAggregator.cell_number (order by fit.model.order_no) is not exercised",
     ]
     t0 = time.time()
     timing = ctx.notes.setdefault('timing_s', {})
@@ -1378,15 +1384,19 @@ def run(ctx):
 
 MANIFEST = {
     "text": "Coq 8.16 model of the aggregator query objects (NamedQuery nesting, junction flattening / de-duplication / merge by name, "
-            "negation, JOIN and NULL semantics of the emitted SQL on the flattened instance tree, LIKE, ordering, offset/limit slicing, "
-            "the Aggregator state machine over query / order_by / slice) with theorems for all predicate trees and all databases with "
+            "negation, JOIN and NULL semantics of the emitted SQL on the flattened instance tree, LIKE, ordering incl. NULL keys "
+            "(SQLite: NULL smallest), offset/limit slicing, the parent relation (ChildQuery), best fits (BestFitQuery), the Aggregator / "
+            "GridSearchAggregator state machine over query / order_by / slice / grid_searches / children / best_fits) with theorems for all predicate trees and all databases with "
             "unique child names: the compiled query selects exactly the fits on which the predicate is true, and query+order+slices "
-            "return the Python slices of the sorted selection, under an explicit guard that excludes the defect classes of the code "
+            "return the Python slices of the sorted selection (the sorted permutation is unique when the id is a key, NULL keys first under "
+            "ASC and last under DESC), children() returns exactly the fits whose parent is selected, best_fits() exactly the children "
+            "of maximal likelihood per grid search, and any sequence of these operations returns its list meaning, under an explicit guard that excludes the defect classes of the code "
             "(each refuted by a vm_compute witness and replayed on the real code); vm_compute correspondence with the running code on "
             "generated (database, predicate / operation sequence) cases and a direct oracle evaluating the predicates on the objects "
             "read back from SQLite and folding the operations over a Python list",
     "note": "Trusted: Coq kernel + vm_compute, SQLite/SQLAlchemy (correspondence only), the reading of SQL as tree semantics, the "
-            "rank abstraction of numbers, the harness. Outside the claim: NULL order keys, BestFitQuery/ChildQuery, grid-search "
-            "aggregators, objects other than plain instances / lists / tuples / dicts / numbers / strings / None.",
+            "rank abstraction of numbers, the harness. Outside the claim: NULL ordering of engines other than SQLite, "
+            "GridSearchAggregator.cell_number / CellAggregator (needs fit.model.order_no), NaN likelihoods, objects other than plain "
+            "instances / lists / tuples / dicts / numbers / strings / None.",
     "technique": "machine-checked proof in Coq (hand-written model) + vm_compute correspondence + direct property oracle",
 }
